@@ -76,7 +76,6 @@ type harness struct {
 	mch                chan imessage
 	activity           Activity
 	active             int32
-	cancellation       sync.Once
 	eventConsumers     []event.IConsumer
 	eventConsumersLock sync.RWMutex
 
@@ -165,9 +164,8 @@ func newHarness(wr *wiring, idGenerator id.IGenerator, constructor constructor) 
 		var actionTransformer ActionTransformer
 		if boundaryEvent.CancelActivity() {
 			actionTransformer = func(sequenceFlowId *schema.IdRef, action IAction) IAction {
-				node.cancellation.Do(func() {
-					<-node.activity.Cancel()
-				})
+				// every activation can be interrupted, not only the first
+				<-node.activity.Cancel()
 				return action
 			}
 		}
